@@ -669,7 +669,7 @@ def run(case):
     raise ValueError('unknown case type')
 
 
-class CaseTimeout(Exception):
+class CaseTimeout(BaseException):
     pass
 
 
